@@ -559,7 +559,7 @@ Definition parse_line (line : bytes) : bytes * bytes :=
   | (c, Some p) => (c, trim_space p)
   end.
 
-Inductive fcmd := FUser | FPass | FPasv | FEpsv | FList | FQuit | FOtherAuth | FOtherNoAuth | FUnknown | FUnmodelled.
+Inductive fcmd := FUser | FPass | FPasv | FEpsv | FList | FQuit | FPort | FEprt | FOtherAuth | FOtherNoAuth | FUnknown | FUnmodelled.
 
 Definition ucmd (c : bytes) : bytes := map upper c.
 
@@ -623,6 +623,8 @@ Definition classify (c : bytes) : fcmd :=
   else if eqb_bytes u [76;73;83;84]%N then FList
   else if eqb_bytes u [78;76;83;84]%N then FList
   else if eqb_bytes u [81;85;73;84]%N then FQuit
+  else if eqb_bytes u [80;79;82;84]%N then FPort
+  else if eqb_bytes u [69;80;82;84]%N then FEprt
   else if eqb_bytes u [78;79;79;80]%N then FOtherNoAuth
   else if eqb_bytes u [83;89;83;84]%N || eqb_bytes u [80;87;68]%N || eqb_bytes u [88;80;87;68]%N then FOtherAuth
   else if in_list u ftp_known then FUnmodelled
@@ -680,6 +682,23 @@ Definition ftp_cmd (v6 : bool) (dial : dialmode) (s : ftp_st) (line : bytes) : f
   | FEpsv => if negb (f_user s) then (FGo s, 1%N)
              else if v6 then (FGo (open_passive dial s), 1%N)
              else (FGo s, 1%N)                                  (* no ':' in the address: 425 *)
+  (* PORT: strings.Split(param, ","), nums[4] and nums[5] without a length check: fewer than six
+     fields panic (recovered by server.handle; ftp's own Conn.Close() is not reached).  A
+     well-formed PORT dials out: outside the model. *)
+  | FPort => if isnil p then (FGo s, 1%N)                      (* 553 *)
+             else if negb (f_user s) then (FGo s, 1%N)         (* 530 *)
+             else if (length (split_on 44 [] p) <? 6)%nat then (FPanic s, 0%N)
+             else (FOut, 0%N)
+  (* EPRT: delim := param[0:1]; parts := Split(param, delim); Atoi(parts[1]) (450 if not a
+     number), parts[2], parts[3] without a length check *)
+  | FEprt => if isnil p then (FGo s, 1%N)
+             else if negb (f_user s) then (FGo s, 1%N)
+             else let parts := split_on (hd 0%N p) [] p in
+                  if (4 <=? length parts)%nat then (FOut, 0%N)
+                  else match atoi (nth 1 parts []) with
+                       | None => (FGo s, 1%N)                  (* 450 Invalid addr *)
+                       | Some _ => (FPanic s, 0%N)
+                       end
   | FList => if negb (f_user s) then (FGo s, 1%N)
              else match f_data s with                           (* 150, data, socket closed, 226 *)
                   | DNone => (FGo s, 2%N)
@@ -728,6 +747,12 @@ Definition ftp_late (o : outcome) (s : ftp_st) : res :=
 
 Definition handle_ftp_st (v6 : bool) (dial : dialmode) (fuel : nat) (c : conn) : outcome * ftp_st * brd :=
   ftp_loop fuel v6 dial ftp_init (bswrite (new_reader c)).       (* 220 banner *)
+
+(* the data socket the session still holds when its control loop is over *)
+Definition ftp_final_data (v6 : bool) (dial : dialmode) (fuel : nat) (c : conn) : dsock :=
+  f_data (snd (fst (handle_ftp_st v6 dial fuel c))).
+Definition data_connected (d : dsock) : bool :=
+  match d with DPassive m => connected m | DNone => false end.
 
 Definition handle_ftp (v6 : bool) (dial : dialmode) (fuel : nat) (c : conn) : hres :=
   let '(o, s, b') := handle_ftp_st v6 dial fuel c in
@@ -796,7 +821,9 @@ Fixpoint smtp_loop (fuel : nat) (st : sstate) (i : N) (b : brd) : outcome * brd 
               if isnil line then smtp_loop f SLoop i b1
               else if is_cmd line c_RSET then smtp_loop f SLoop i (bswrite b1)
               else if is_cmd line c_RCPT then smtp_loop f SMail i (bswrite b1)
-              else if is_cmd line c_BDAT then (Unmodelled, b1)
+              else if is_cmd line c_BDAT then
+                (* parts := strings.Split(line, " "); parts[1]: no chunk size, no second field: panic *)
+                if contains 32 line then (Unmodelled, b1) else (Panicked, b1)
               else if is_cmd line c_DATA then (Unmodelled, b1)
               else if is_cmd line c_HELP then smtp_loop f SMail i (nwrites 2 b1)
               else smtp_loop f SLoop i (bswrite b1)
